@@ -21,7 +21,7 @@ from fractions import Fraction
 from pathlib import Path
 
 VERIF = Path(__file__).resolve().parent.parent
-LEAN = VERIF / "lean"
+LEAN = Path(os.environ.get("VERIF_LEAN_DIR", str(VERIF / "lean")))     # override: development tools that run several checks at once
 REPO = Path(os.environ.get("PYSENSORS_REPO", "/repo")).resolve()
 DRIVER = LEAN / ".lake" / "build" / "bin" / "driver"
 ALLOWED_AXIOMS = {"propext", "Classical.choice", "Quot.sound"}
